@@ -27,6 +27,33 @@ class Unsupported(BaseException):
             EX._unsup = str(msg)
 
 
+PATH_RESET = None        # optional callable run before every path (see make_module_resetter)
+
+
+def make_module_resetter(prefix):
+    """Every path of an exploration is one execution of the code under test from its initial state.  Module-level dict /
+    list / set objects of the modules under `prefix` (memo tables, registries) would otherwise carry entries - possibly
+    holding symbolic values of a finished path - from one path into the next.  Returns a callable restoring their contents
+    to what they are now."""
+    import sys
+    snap = []
+    for name, mod in list(sys.modules.items()):
+        if mod is None or not (name == prefix or name.startswith(prefix + '.')):
+            continue
+        for attr, val in list(vars(mod).items()):
+            if type(val) in (dict, list, set) and not attr.startswith('__'):
+                snap.append((val, type(val)(val)))
+
+    def reset():
+        for live, saved in snap:          # unconditional (no comparisons: entries may hold symbolic values of a finished path)
+            if isinstance(live, list):
+                live[:] = saved
+            else:
+                live.clear()
+                live.update(saved)
+    return reset
+
+
 class PathAbort(BaseException):
     """infeasible path / assumption failed"""
 
@@ -309,6 +336,8 @@ class Explorer:
                     self.solver.add(c)
                 try:
                     try:
+                        if PATH_RESET is not None:
+                            PATH_RESET()           # module-level containers of the code under test: every path starts from the same state
                         r = fn()
                     except Unsupported as e:
                         r = None
